@@ -198,31 +198,31 @@ fn roundtrip(machine: ZXMachine, fresh_receiver: bool, paged: u8) {
     kani::assert(r.is_ok(), "C13: load of a saved snapshot succeeds");
     let g = e2.verif_cpu().regs.verif_get();
     kani::assert(g.a == v.a && g.f == v.f && g.b == v.b && g.c == v.c && g.d == v.d && g.e == v.e
-        && g.h == v.h && g.l == v.l, "C13.roundtrip main registers");
-    kani::assert(g.a_alt == v.a_alt && g.f_alt == v.f_alt, "C13.roundtrip AF'");
-    kani::assert(g.b_alt == v.b_alt && g.c_alt == v.c_alt && g.d_alt == v.d_alt && g.e_alt == v.e_alt, "C13.roundtrip BC' DE'");
-    kani::assert(g.h_alt == v.h_alt && g.l_alt == v.l_alt, "C13.roundtrip HL'");
-    kani::assert(g.ixh == v.ixh && g.ixl == v.ixl && g.iyh == v.iyh && g.iyl == v.iyl, "C13.roundtrip IX IY");
-    kani::assert(g.sp == v.sp, "C13.roundtrip SP");
-    kani::assert(g.pc == v.pc, "C13.roundtrip PC");
-    kani::assert(g.i == v.i && g.r == v.r, "C13.roundtrip I R");
-    kani::assert(g.iff2 == v.iff2, "C13.roundtrip IFF2");
-    kani::assert(e2.verif_cpu().verif_im() == im, "C13.roundtrip interrupt mode");
+        && g.h == v.h && g.l == v.l, "C13/C14.roundtrip main registers");
+    kani::assert(g.a_alt == v.a_alt && g.f_alt == v.f_alt, "C13/C14.roundtrip AF'");
+    kani::assert(g.b_alt == v.b_alt && g.c_alt == v.c_alt && g.d_alt == v.d_alt && g.e_alt == v.e_alt, "C13/C14.roundtrip BC' DE'");
+    kani::assert(g.h_alt == v.h_alt && g.l_alt == v.l_alt, "C13/C14.roundtrip HL'");
+    kani::assert(g.ixh == v.ixh && g.ixl == v.ixl && g.iyh == v.iyh && g.iyl == v.iyl, "C13/C14.roundtrip IX IY");
+    kani::assert(g.sp == v.sp, "C13/C14.roundtrip SP");
+    kani::assert(g.pc == v.pc, "C13/C14.roundtrip PC");
+    kani::assert(g.i == v.i && g.r == v.r, "C13/C14.roundtrip I R");
+    kani::assert(g.iff2 == v.iff2, "C13/C14.roundtrip IFF2");
+    kani::assert(e2.verif_cpu().verif_im() == im, "C13/C14.roundtrip interrupt mode");
     let b2: u8 = e2.verif_ctl().border_color.into();
-    kani::assert(b2 == border, "C13.roundtrip border colour");
+    kani::assert(b2 == border, "C13/C14.roundtrip border colour");
     if !is48 {
-        kani::assert(e2.verif_ctl().read_7ffd() == latch, "C13.roundtrip paging latch incl. lock bit");
-        kani::assert(e2.verif_ctl().verif_paging_enabled() == (latch & 0x20 == 0), "C13.roundtrip paging lock state");
+        kani::assert(e2.verif_ctl().read_7ffd() == latch, "C13/C14.roundtrip paging latch incl. lock bit");
+        kani::assert(e2.verif_ctl().verif_paging_enabled() == (latch & 0x20 == 0), "C13/C14.roundtrip paging lock state");
     }
     let mut k = 0u8;
     while k < pages {
         kani::assert(e2.verif_ctl().memory.ram_page_data(k)[0] == k + 1,
-            "C13.roundtrip every RAM bank comes back into the same bank (marker byte)");
+            "C13/C14.roundtrip every RAM bank comes back into the same bank (marker byte)");
         k += 1;
     }
-    kani::assert(!e2.verif_cpu().halted, "C13.receiver halt state does not survive the load");
+    kani::assert(!e2.verif_cpu().halted, "C13/C14.receiver halt state does not survive the load");
     kani::assert(e2.verif_cpu().verif_active_prefix() == 0 && !e2.verif_cpu().skip_interrupt,
-        "C13.receiver prefix / EI shadow does not survive the load");
+        "C13/C14.receiver prefix / EI shadow does not survive the load");
     kani::cover!(true);
 }
 
@@ -378,20 +378,20 @@ fn roundtrip_128k(fresh_receiver: bool) {
     kani::assert(r.is_ok(), "C13: load of a saved snapshot succeeds");
     let g = e2.verif_cpu().regs.verif_get();
     kani::assert(g.a == v.a && g.f == v.f && g.b == v.b && g.c == v.c && g.d == v.d && g.e == v.e
-        && g.h == v.h && g.l == v.l, "C13.roundtrip main registers");
+        && g.h == v.h && g.l == v.l, "C13/C14.roundtrip main registers");
     kani::assert(g.a_alt == v.a_alt && g.f_alt == v.f_alt && g.b_alt == v.b_alt && g.c_alt == v.c_alt
-        && g.d_alt == v.d_alt && g.e_alt == v.e_alt && g.h_alt == v.h_alt && g.l_alt == v.l_alt, "C13.roundtrip alternate registers");
-    kani::assert(g.ixh == v.ixh && g.ixl == v.ixl && g.iyh == v.iyh && g.iyl == v.iyl, "C13.roundtrip IX IY");
-    kani::assert(g.sp == v.sp && g.pc == v.pc, "C13.roundtrip SP PC");
-    kani::assert(g.i == v.i && g.r == v.r && g.iff2 == v.iff2, "C13.roundtrip I R IFF2");
-    kani::assert(e2.verif_cpu().verif_im() == im, "C13.roundtrip interrupt mode");
+        && g.d_alt == v.d_alt && g.e_alt == v.e_alt && g.h_alt == v.h_alt && g.l_alt == v.l_alt, "C13/C14.roundtrip alternate registers");
+    kani::assert(g.ixh == v.ixh && g.ixl == v.ixl && g.iyh == v.iyh && g.iyl == v.iyl, "C13/C14.roundtrip IX IY");
+    kani::assert(g.sp == v.sp && g.pc == v.pc, "C13/C14.roundtrip SP PC");
+    kani::assert(g.i == v.i && g.r == v.r && g.iff2 == v.iff2, "C13/C14.roundtrip I R IFF2");
+    kani::assert(e2.verif_cpu().verif_im() == im, "C13/C14.roundtrip interrupt mode");
     let b2: u8 = e2.verif_ctl().border_color.into();
-    kani::assert(b2 == border, "C13.roundtrip border colour");
-    kani::assert(e2.verif_ctl().read_7ffd() == latch, "C13.roundtrip paging latch incl. lock bit");
-    kani::assert(e2.verif_ctl().verif_paging_enabled() == (latch & 0x20 == 0), "C13.roundtrip paging lock state");
-    kani::assert(unsafe { VPAGES == content }, "C13.roundtrip every RAM bank comes back into the same bank");
+    kani::assert(b2 == border, "C13/C14.roundtrip border colour");
+    kani::assert(e2.verif_ctl().read_7ffd() == latch, "C13/C14.roundtrip paging latch incl. lock bit");
+    kani::assert(e2.verif_ctl().verif_paging_enabled() == (latch & 0x20 == 0), "C13/C14.roundtrip paging lock state");
+    kani::assert(unsafe { VPAGES == content }, "C13/C14.roundtrip every RAM bank comes back into the same bank");
     kani::assert(!e2.verif_cpu().halted && e2.verif_cpu().verif_active_prefix() == 0 && !e2.verif_cpu().skip_interrupt,
-        "C13.receiver halt / prefix / EI shadow does not survive the load");
+        "C13/C14.receiver halt / prefix / EI shadow does not survive the load");
     kani::cover!(paged == 5);
     kani::cover!(paged == 0 && latch & 0x20 != 0);
 }
